@@ -752,6 +752,28 @@ def rule_signature(ctx: Ctx, rid="C09.SIGNATURE"):
                        "helper takes exactly the condition fields; the experiment name is only the def name")
 
 
+def rule_fields_reach_predicates(ctx: Ctx, rid="C02.FIELDS-REACH-PREDICATES"):
+    """The predicates are evaluated inside the helper on its parameters: each must be bound, at the helper call, to the caller's
+    field of the same name as passed in - not to a value derived from it (`str(field)`, a re-bound local of that name)."""
+    n = 0
+    for o, ir, err in irs(ctx):
+        if ir is None:
+            continue
+        con = f"{GEN}:PythonCodeGen.generate <- {_label(o)}"
+        own = _prog_ident_names(o.prog)
+        bad = [(p, v) for p, v in ir["helper_call_binding"].items() if p in own and v != ("name", p)]
+        rebound = [nme for nme in ir.get("main_locals", []) if nme in own and nme in ir["helper_call_binding"]]
+        n += 1
+        if bad or rebound:
+            what = (f"the condition field `{bad[0][0]}` reaches the predicates as {_short(bad[0][1], 80)}, not as the caller's value" if bad
+                    else f"the field `{rebound[0]}` is re-bound inside the generated function before the predicates read it")
+            ctx.rep.bad(rid, con, what + ": comparisons on it (==, in, >=, ...) are made on another value or type",
+                        text=f"{o.prog.label}|{what[:90]}", facts={"generated": o.text})
+        else:
+            ctx.rep.ok(rid, con, "every condition field is handed to the predicates as the caller passed it")
+    return n
+
+
 # ------------------------------------------------------------------ C14 layouts
 def rule_layouts_agree(ctx: Ctx, rid="C14.LAYOUTS-AGREE"):
     by_prog = {}
